@@ -1,5 +1,7 @@
 #![allow(dead_code)]
 mod browse;
+mod compare;
+mod conflict;
 mod decode;
 mod encode;
 mod respond;
@@ -68,6 +70,10 @@ fn main() {
             println!("{}", json!({"summary": summary}));
         }
         "smoke" => smoke::run(&out),
+        "compare" => {
+            let summary = compare::drive(a.get("cases").map(|s| s.as_str()).unwrap_or(""), &out);
+            println!("{}", json!({"summary": summary}));
+        }
         "respond" => {
             let from: u64 = a.get("from").and_then(|s| s.parse().ok()).unwrap_or(1);
             let to: u64 = a.get("to").and_then(|s| s.parse().ok()).unwrap_or(a.get("n").and_then(|s| s.parse().ok()).unwrap_or(40));
@@ -78,7 +84,7 @@ fn main() {
             sim::write_trace(&out, &lines);
             println!("{}", json!({"summary": {"scenarios": to + 1 - from, "lines": lines.len()}}));
         }
-        "browse" | "resolve" | "flood" | "silent" | "browsew" | "resolvew" => {
+        "browse" | "resolve" | "flood" | "silent" | "conflict" => {
             let from: u64 = a.get("from").and_then(|s| s.parse().ok()).unwrap_or(1);
             let to: u64 = a.get("to").and_then(|s| s.parse().ok()).unwrap_or(10);
             let mut lines = Vec::new();
@@ -87,6 +93,7 @@ fn main() {
                     "browse" => lines.extend(browse::scenario(id, seed, thorough, "browse")),
                     "resolve" => lines.extend(browse::scenario_resolve(id, seed, thorough)),
                     "silent" => lines.extend(browse::scenario_silent(id, seed, thorough)),
+                    "conflict" => lines.extend(conflict::scenario(id, seed, thorough)),
                     _ => lines.extend(browse::scenario_flood(id, seed, thorough)),
                 }
             }
